@@ -259,6 +259,8 @@ def handle (cmd : String) (args impl : List String) : Option (String × String) 
   match args with
   | _mode :: _w :: _b :: _p :: _kill :: nl :: rest => do
     let n ← nat? nl
+    -- the harness could not observe the run (it says so itself): nothing to judge
+    if impl == ["bad-harness"] then pure ("bad-harness", "ok") else
     let (t, _) ← parseTable n rest
     let (recs, _summary) := parseRecs (impl.length + 1) impl
     let cfg := cfgOf t
